@@ -222,7 +222,10 @@ def file_hash(paths):
 
 
 SAN_FLAGS = ["-std=c++20", "-O1", "-g", "-fsanitize=address,undefined", "-fno-sanitize=vptr",
-             "-fno-sanitize-recover=all", "-fno-omit-frame-pointer"]
+             "-fno-sanitize-recover=all", "-fno-omit-frame-pointer",
+             # keep the stores a destructor makes into the dying object (tracked elements mark themselves DEAD there);
+             # GCC would otherwise remove them and a use-after-destruction would read the old, valid-looking value
+             "-fno-lifetime-dse"]
 
 
 def build_harness(name, sources, extra_flags=(), repo_sources=(), deps=(), flags=None):
